@@ -26,7 +26,7 @@ VARIANTS = 16
 
 
 def plan(tier):
-    n = 700 * VARIANTS if tier == "quick" else 15000 * VARIANTS
+    n = 700 * VARIANTS if tier == "quick" else 30000 * VARIANTS
     return {"cases": n, "shards": 12, "timeout": 900 if tier == "quick" else 5400, "min_nontrivial": 300,
             "min": {"faults_reached": 3000, "segments_judged": 5000, "failing_steps": 150}}
 
